@@ -220,6 +220,70 @@ def check_calc_kG0(led, replay=None):
     led.extra['python_layer_paths'] = led.extra.get('python_layer_paths', 0) + n_paths
 
 
+def check_calc_kG0_state(led, replay=None):
+    """state-based route: the kernel must receive the caller's state, the quadrature orders and the laminate of the panel
+    definition (with its offset) unless a table is supplied"""
+    func = PF + 'calc_kG0'
+    from ..kernel import InArray
+    it, calls = mk()
+    for geom, ftab, nxny, fin in itertools.product(('plate', 'cpanel'), ('default', '6x6', 'table'), ('default', 'given'), (True, False)):
+        tag = 'state,%s,Fnxny=%s,nx/ny=%s,finalize=%s' % (geom, ftab, nxny, fin)
+        holder = {}
+
+        def run():
+            del calls[:]
+            p, kw, want, g = build(it, geom, 'uniform', 'none', {})
+            it.call(it.getattr(p, 'calc_k0'), [], dict(silent=True))
+            del calls[:]
+            size = g['num'] * kw['m'] * kw['n']
+            c = InArray('c', shape=(size,))
+            args = dict(silent=True, finalize=fin, c=c)
+            Fn = None
+            if ftab != 'default':
+                Fn = InArray('Fnxny_user', shape=((6, 6) if ftab == '6x6' else (integer('nxq'), integer('nyq'), 6, 6)))
+                args['Fnxny'] = Fn
+            if nxny == 'given':
+                args.update(nx=integer('nxq'), ny=integer('nyq'))
+            holder.update(kw=kw, want=want, g=g, Fn=Fn, c=c, size=size)
+            return (p, it.call(it.getattr(p, 'calc_kG0'), [], args))
+        for path, out in it.explore(run):
+            g, kw, want = holder['g'], holder['kw'], holder['want']
+            name = '%s[%s]' % (func, tag)
+            if out[0] == 'raise':
+                report(led, name + '/no-exception', func, ['raises %s%s' % (out[1].tname, tuple(str(a)[:80] for a in out[1].eargs))], replay)
+                continue
+            p, kG = out[1]
+            wrap, terms = pycheck.terms_of(kG)
+            probs = []
+            if len(terms) != 1 or not (isinstance(terms[0][1], Opaque) and terms[0][1].kind == 'kernel'):
+                probs.append('expected exactly one kernel term')
+            else:
+                t = terms[0][1]
+                a_ = t.f['args']
+                if t.f['fn'] != 'fkG_num' or t.f['model'] != g['model'] + '_num':
+                    probs.append('kernel %s.%s called, expected %s_num.fkG_num' % (t.f['model'], t.f['fn'], g['model']))
+                if a_.get('cs') is not holder['c'] and getattr(a_.get('cs'), 'name', None) != 'c':
+                    probs.append('the kernel does not receive the caller\'s state vector')
+                Fi = a_.get('Finput')
+                if holder['Fn'] is not None:
+                    if Fi is not holder['Fn']:
+                        probs.append('the kernel does not receive the laminate table supplied by the caller')
+                elif panelctx.vkey(Fi) != panelctx.vkey(want['lam.ABD']):
+                    probs.append('laminate handed to the kernel is %s, expected the ABD of the panel definition %s' % (pycheck.describe(Fi), pycheck.describe(want['lam.ABD'])))
+                wantn = (integer('nxq'), integer('nyq')) if nxny == 'given' else (kw['m'], kw['n'])
+                for nm_, wv in zip(('nx', 'ny'), wantn):
+                    if panelctx.vkey(a_.get(nm_)) != panelctx.vkey(wv):
+                        probs.append('%s = %s, expected %s' % (nm_, pycheck.describe(a_.get(nm_)), pycheck.describe(wv)))
+                for nm_, wv in (('size', holder['size']), ('row0', 0), ('col0', 0)):
+                    if panelctx.vkey(a_.get(nm_)) != panelctx.vkey(wv):
+                        probs.append('%s = %s, expected %s' % (nm_, pycheck.describe(a_.get(nm_)), pycheck.describe(wv)))
+                probs += [d_ for d_ in pycheck.diff_kernel(t, 'fkG_num', g['model'] + '_num', {}, want) if 'argument' not in d_]
+            if fin and wrap[:1] != ['symmetrized']:
+                probs.append('result is not symmetrized')
+            report(led, name, func, probs, replay)
+    led.solver_time('z3-feasibility', it.solver_time)
+
+
 def check_calc_kM(led, replay=None):
     func = PF + 'calc_kM'
     led.function(func)
